@@ -13,14 +13,14 @@ import (
 type Arity int
 
 const (
-	Exactly0 Arity = iota // no argument at all (PING, QUIT)
-	Exactly1              // key
-	Exactly2              // key + 1
-	Exactly3              // key + 2
-	Exactly4              // key + 3
-	AtLeast1              // key + anything
-	EvenAtLeast2          // key value [key value ...]
-	EvalLike              // script numkeys key ... : at least 3
+	Exactly0     Arity = iota // no argument at all (PING, QUIT)
+	Exactly1                  // key
+	Exactly2                  // key + 1
+	Exactly3                  // key + 2
+	Exactly4                  // key + 3
+	AtLeast1                  // key + anything
+	EvenAtLeast2              // key value [key value ...]
+	EvalLike                  // script numkeys key ... : at least 3
 )
 
 // golden arity table: transcribed once from the pinned command table, per command name.
